@@ -45,6 +45,9 @@ def run(ctx):
     if os.path.exists(os.path.join(lib.COQ, 'Properties', 'Properties_C09.v')):
         if not ctx.check_theorems():
             ctx.broken_obligation('Properties_C09.vo', getattr(ctx, 'broken', {}))
+    if os.path.exists(os.path.join(lib.COQ, 'Properties', 'Properties_C09b.v')):
+        if not ctx.check_theorems(prop_module='Properties_C09b'):
+            ctx.broken_obligation('Properties_C09b.vo', getattr(ctx, 'broken', {}))
     fl = ctx.rt_objs(san=True, defs=['-DNDEBUG'])
     npairs = 14 if ctx.thorough else 4
     nvals = 40 if ctx.thorough else 12
